@@ -657,3 +657,25 @@ M("C02", "write-request-value-behind-branch", PL, "        self.value = request.
   "        if raw_data:\n            self.value = request.value\n        self.data_type = request.data_type\n        super().__init__(request, raw_data)", ["D2.I"])
 M("C13", "response-tag-info-after-super", PL, "        self.tag_info = request.tag_info\n        super().__init__(request, raw_data)\n", "        super().__init__(request, raw_data)\n        self.tag_info = request.tag_info\n", ["D13.I", "D1.I"])
 T("C01", "fragment-response-redundant-init-removed", PL, "        self.value = None\n        self._data_type = None\n        self.value_bytes = None\n", "        self._data_type = None\n        self.value_bytes = None\n")
+# ------------------------------------------------------------------ packet-frame witnesses
+M("C04", "fragment-offset-not-sent", PL, "        self._msg.append(UDINT.encode(self.offset))\n", "", ["D4.9"])
+M("C04", "fragment-struct-prefix-inverted", PL, "            if self.data[:2] == STRUCTURE_READ_REPLY:", "            if self.data[:2] != STRUCTURE_READ_REPLY:", ["D4.9"])
+M("C04", "read-continuation-default-offset-1", PL, "        request: Union[ReadTagRequestPacket, \"ReadTagFragmentedRequestPacket\"],\n        offset=0,", "        request: Union[ReadTagRequestPacket, \"ReadTagFragmentedRequestPacket\"],\n        offset=1,", ["D4.9"])
+M("C09", "multi-service-router-instance-2", PL, "self.request_path = request_path(ClassCode.message_router, 1)", "self.request_path = request_path(ClassCode.message_router, 2)", ["D9.9"])
+M("C02", "and-mask-bit-not-restored", PL, "            self._and_mask |= 1 << bit\n", "", ["D2.11"])
+M("C02", "write-struct-branch-inverted", PL, '        if tag_info["tag_type"] == "struct":\n            if not isinstance(value, (bytes, bytearray)):', '        if tag_info["tag_type"] != "struct":\n            if not isinstance(value, (bytes, bytearray)):', ["D2.11"])
+M("C02", "write-error-set-when-path-built", PL, '        if self.request_path is None:\n            self.error = f"Failed to build request path for tag"', '        if self.request_path is not None:\n            self.error = f"Failed to build request path for tag"', ["D2.11"])
+M("C13", "command-status-test-inverted", PB, "        if self.command_status not in (None, SUCCESS):", "        if self.command_status in (None, SUCCESS):", ["D13.9"])
+M("C13", "service-status-test-inverted", PB, "        if self.service_status not in (None, SUCCESS):", "        if self.service_status in (None, SUCCESS):", ["D13.9"])
+M("C18", "added-data-not-appended", PB, "            self._msg += self._added\n", "", ["D18.14"])
+M("C16", "list-identity-header-not-parsed", PE, "            super()._parse_reply()\n            self.data = self.raw[26:]", "            self.data = self.raw[26:]", ["D16.7"])
+M("C01", "member-index-stale", PU, "            attr, index = _find_tag_index(attr)\n", "", ["D1.13"])
+M("C01", "type-string-dword-inverted", PU, '    if dt_name == "DWORD":\n        dt_name = f"BOOL[{elements * 32}]"', '    if dt_name != "DWORD":\n        dt_name = f"BOOL[{elements * 32}]"', ["D1.13"])
+M("C01", "multi-reply-members-not-collected", PL, "                self.responses.append(response)\n", "                pass\n", ["D1.12"])
+M("C01", "read-reply-parsed-only-when-invalid", PL, "            if self.is_valid() and not dont_parse:", "            if not self.is_valid() and not dont_parse:", ["D1.12"])
+M("C14", "generic-request-data-before-path", PC, "        self._msg += [self.service, req_path, self.request_data]", "        self._msg += [self.service, self.request_data, req_path]", ["D14.8"])
+T("C04", "fragment-offset-augmented", PL, "        self._msg.append(UDINT.encode(self.offset))\n", "        self._msg += [UDINT.encode(self.offset)]\n")
+T("C01", "tag-only-message-concatenated", PL, '        return b"".join((self.tag_service, self.request_path, UINT.encode(self.elements)))', "        return self.tag_service + self.request_path + UINT.encode(self.elements)")
+T("C13", "command-status-test-spelled-out", PB, "        if self.command_status not in (None, SUCCESS):", "        if self.command_status is not None and self.command_status != SUCCESS:")
+T("C01", "member-segments-extended", PU, '        segments += [LogicalSegment(int(idx), "member_id") for idx in index]\n\n        for attr in attrs:', '        segments.extend(LogicalSegment(int(idx), "member_id") for idx in index)\n\n        for attr in attrs:')
+T("C02", "mask-size-lookup-split", PL, '        self._mask_size = getattr(DataTypes.get(self.data_type), "size", None)', '        _dt = DataTypes.get(self.data_type)\n        self._mask_size = _dt.size if _dt is not None else None')
